@@ -560,11 +560,20 @@ def recvString (E : Env) : Recv → List Nat := thisString E
 inductive Outcome where
   | ret (v : Val)
   | throw
+  | retObj                         -- the method returns an object (not a primitive): DefaultValue goes on
+deriving DecidableEq, Repr, Inhabited
+
+/-- one of the two conversion methods of a scripted object -/
+inductive MethodScript where
+  | absent                          -- not defined on the object: Object.prototype's applies
+  | notCallable                     -- defined, but not a function
+  | outs (os : List Outcome)        -- a function: logs the call, its k-th call yields os[k] (the last one repeats)
 deriving DecidableEq, Repr, Inhabited
 
 inductive Operand where
   | prim (v : Val)
-  | obj (outs : List Outcome)       -- the k-th conversion yields outs[k] (the last one repeats)
+  | obj (outs : List Outcome)       -- valueOf and toString are ONE scripted function
+  | dual (vo ts : MethodScript)     -- distinct valueOf and toString
 deriving DecidableEq, Repr, Inhabited
 
 /-- operand 0 is the receiver, operand k+1 is argument k -/
@@ -581,7 +590,10 @@ def Run.operand (r : Run) (who : Nat) : Operand :=
 /-- the conversions performed so far, oldest first: (operand, primitive obtained) -/
 abbrev Done := List (Nat × Val)
 
-def Operand.isObj : Operand → Bool | .obj _ => true | _ => false
+/-- the call log: (operand, method) with method 0 = the single function of an `obj` operand, 1 = valueOf, 2 = toString -/
+abbrev Log := List (Nat × Nat)
+
+def Operand.isObj : Operand → Bool | .prim _ => false | _ => true
 /-- Value.IsUndefined on the raw operand -/
 def Operand.isUndef : Operand → Bool | .prim .undef => true | _ => false
 
@@ -590,16 +602,63 @@ def Operand.isUndef : Operand → Bool | .prim .undef => true | _ => false
 def valueOf (r : Run) (d : Done) (who : Nat) : Val :=
   match r.operand who with
   | .prim v => v
-  | .obj _ => match (d.reverse.find? (fun e => e.1 == who)) with
+  | _ => match (d.reverse.find? (fun e => e.1 == who)) with
     | some e => e.2
     | none => .null
 
+/-- the preferred type of a conversion: Value.string() uses DefaultValue(hint String), Value.number() / float64()
+    DefaultValue(hint Number) (value_string.go:104, value_number.go:102); ES5 ToString / ToNumber (§9.8, §9.3) -/
+inductive Hint | str | num
+deriving DecidableEq, Repr
+
+/-- "[object Object]" -/
+def sObjectObject : List Nat := [91, 111, 98, 106, 101, 99, 116, 32, 79, 98, 106, 101, 99, 116, 93]
+
+/-- the outcome of one method of DefaultValue: a primitive ends the conversion, `none` means "go on" -/
+inductive Step where
+  | prim (v : Val)
+  | goOn
+  | threw
+deriving DecidableEq, Repr
+
+/-- call one conversion method (code 1 = valueOf, 2 = toString; 0 = the shared function of an `obj` operand) -/
+def callMethod (who code : Nat) (ms : MethodScript) (log : Log) : Log × Step :=
+  match ms with
+  | .absent => (log, if code = 2 then .prim (.str sObjectObject) else .goOn)   -- Object.prototype.toString / valueOf
+  | .notCallable => (log, .goOn)
+  | .outs os =>
+    let k := (log.filter (fun e => e == (who, code))).length
+    let log := log ++ [(who, code)]
+    match os.getD (min k (os.length - 1)) .throw with
+    | .ret v => (log, .prim v)
+    | .throw => (log, .threw)
+    | .retObj => (log, .goOn)
+
+/-- object.go:70 DefaultValue = ES5 §8.12.8 [[DefaultValue]]: hint String tries toString then valueOf, hint Number
+    valueOf then toString; a callable method returning a primitive ends it; otherwise TypeError.
+    Result: the log and `some (primitive)` / `none` with the Res of the failure -/
+def defaultValue (who : Nat) (o : Operand) (h : Hint) (log : Log) : Log × (Val ⊕ Res) :=
+  let (first, second) : (Nat × MethodScript) × (Nat × MethodScript) :=
+    match o with
+    | .dual vo ts => (match h with | .str => ((2, ts), (1, vo)) | .num => ((1, vo), (2, ts)))
+    | .obj os => ((0, .outs os), (0, .outs os))
+    | .prim _ => ((0, .absent), (0, .absent))
+  match callMethod who first.1 first.2 log with
+  | (log, .prim v) => (log, .inl v)
+  | (log, .threw) => (log, .inr .throwScript)
+  | (log, .goOn) =>
+    match callMethod who second.1 second.2 log with
+    | (log, .prim v) => (log, .inl v)
+    | (log, .threw) => (log, .inr .throwScript)
+    | (log, .goOn) => (log, .inr .throwType)
+
 structure Plan where
   next : Run → Done → Option Nat          -- the operand converted next, `none` when the method is ready to finish
+  hint : Nat → Hint                       -- the conversion applied to operand `who`
   finish : Run → Done → Res
 
-/-- run a plan: log of conversion calls (operand numbers of OBJECT operands, in call order) and the result -/
-def exec (p : Plan) (r : Run) : Nat → Done → List Nat → List Nat × Res
+/-- run a plan: log of conversion-method calls of the OBJECT operands, in call order, and the result -/
+def exec (p : Plan) (r : Run) : Nat → Done → Log → Log × Res
   | 0, d, log => (log, p.finish r d)
   | fuel + 1, d, log =>
     match p.next r d with
@@ -607,13 +666,12 @@ def exec (p : Plan) (r : Run) : Nat → Done → List Nat → List Nat × Res
     | some who =>
       match r.operand who with
       | .prim v => exec p r fuel (d ++ [(who, v)]) log
-      | .obj outs =>
-        let k := (d.filter (fun e => e.1 == who)).length
-        match outs.getD (min k (outs.length - 1)) .throw with
-        | .throw => (log ++ [who], .throwScript)
-        | .ret v => exec p r fuel (d ++ [(who, v)]) (log ++ [who])
+      | o =>
+        match defaultValue who o (p.hint who) log with
+        | (log, .inl v) => exec p r fuel (d ++ [(who, v)]) log
+        | (log, .inr res) => (log, res)
 
-def Plan.run (p : Plan) (r : Run) : List Nat × Res := exec p r (2 * r.args.length + 4) [] []
+def Plan.run (p : Plan) (r : Run) : Log × Res := exec p r (2 * r.args.length + 4) [] []
 
 /-- has operand `who` been converted? -/
 def did (d : Done) (who : Nat) : Bool := d.any (fun e => e.1 == who)
@@ -622,7 +680,7 @@ def did (d : Done) (who : Nat) : Bool := d.any (fun e => e.1 == who)
 def recvOf (E : Env) (r : Run) (d : Done) : Recv :=
   match r.recv with
   | .prim v => .val v
-  | .obj _ => .obj (toStr E (valueOf r d 0))
+  | _ => .obj (toStr E (valueOf r d 0))
 def argsOf (r : Run) (d : Done) : List Val := (List.range r.args.length).map fun k => valueOf r d (k + 1)
 
 /-- convert the listed operands in this order, each once, skipping those the predicate excludes -/
@@ -677,8 +735,19 @@ def goOrder (E : Env) (m : String) (r : Run) (d : Done) : Option Nat :=
     let _ := E; inOrder [0, 1, 2] d
   | _ => inOrder [0] d
 
+/-- which conversion the Go code applies to each operand: `.string()` (hint String) for the receiver, for search
+    strings, separators, replacement and concat arguments; `.number()` / `toIntegerFloat` / `toUint32` (hint Number)
+    for positions, lengths and the split limit -/
+def goHint (m : String) (who : Nat) : Hint :=
+  if who = 0 then .str else
+  match m with
+  | "charAt" | "charCodeAt" | "slice" | "substring" | "substr" => .num
+  | "indexOf" | "lastIndexOf" | "split" => if who = 1 then .str else .num
+  | _ => .str                                    -- concat (every argument), localeCompare, replace
+
 def goPlan (E : Env) (m : String) : Plan where
   next := goOrder E m
+  hint := goHint m
   finish := fun r d => match pureMethod m with
     | some f => f E (recvOf E r d) (argsOf r d)
     | none => .undef
